@@ -17,8 +17,14 @@ use serde_json::{json, Value};
 #[derive(Clone, Debug)]
 pub enum MAct {
     Cmd(usize, Vec<Bytes>),
+    /// several commands of one connection delivered in one write (the server parses and executes them in one pass)
+    Pipe(usize, Vec<Vec<Bytes>>),
     Close(usize),
     Tick(u64),
+}
+
+pub fn mpipe(conn: usize, cmds: &[&[&str]]) -> MAct {
+    MAct::Pipe(conn, cmds.iter().map(|parts| parts.iter().map(|s| s.as_bytes().to_vec()).collect()).collect())
 }
 
 pub fn mcmd(conn: usize, parts: &[&str]) -> MAct {
@@ -244,6 +250,7 @@ impl MultiWorld {
 fn describe(a: &MAct) -> String {
     match a {
         MAct::Cmd(c, args) => format!("c{}: {}", c, resp::show_cmd(args)),
+        MAct::Pipe(c, cmds) => format!("c{}: [{}] in one write", c, cmds.iter().map(|a| resp::show_cmd(a)).collect::<Vec<_>>().join(", ")),
         MAct::Close(c) => format!("c{}: close", c),
         MAct::Tick(ns) => format!("tick +{}ms", ns / 1_000_000),
     }
@@ -275,7 +282,7 @@ impl World for MultiWorld {
                 return Err(format!("FLUSHALL -> {}", resp::show(&r)));
             }
             let _ = srv.call(aux, &["SELECT", "0"]);
-            if self.spec.acts.iter().any(|a| matches!(a, MAct::Cmd(_, args) if args.iter().any(|x| x == b"@SHA"))) {
+            if self.spec.acts.iter().any(|a| match a { MAct::Cmd(_, args) => args.iter().any(|x| x == b"@SHA"), MAct::Pipe(_, cmds) => cmds.iter().any(|args| args.iter().any(|x| x == b"@SHA")), _ => false }) {
                 match srv.call(aux, &["SCRIPT", "LOAD", crate::model::conn::FORWARD_SCRIPT]) {
                     Ok(R::Bulk(sha)) => self.sha = sha,
                     other => return Err(format!("SCRIPT LOAD -> {:?}", other)),
@@ -332,6 +339,70 @@ impl World for MultiWorld {
                     return Ok(StepOut { ok: false, dev: Some((format!("{}|close|unsolicited-frames", self.spec.prop), json!({"frames": frames.iter().map(|f| f.iter().map(resp::show).collect::<Vec<_>>()).collect::<Vec<_>>()}))), obs: "close".into() });
                 }
                 Ok(StepOut { ok: true, dev: None, obs: format!("c{} closed", c) })
+            }
+            MAct::Pipe(c, cmds) => {
+                if self.conns[c].is_none() {
+                    return Ok(StepOut { ok: true, dev: None, obs: "noop".into() });
+                }
+                let st = &self.model.conns[c];
+                let ctx = format!("c{}{}{}{}", c, if st.in_multi { "+multi" } else { "" }, if !st.watched.is_empty() { "+watch" } else { "" }, if st.db != 0 { format!("+db{}", st.db) } else { String::new() });
+                let mut bytes = Vec::new();
+                for args in cmds.iter() {
+                    let wire: Vec<Bytes> = args.iter().map(|a| if a == b"@SHA" { self.sha.clone() } else { a.clone() }).collect();
+                    bytes.extend(resp::cmd(&wire));
+                }
+                let shown = cmds.iter().map(|a| resp::show_cmd(a)).collect::<Vec<_>>().join(", ");
+                let sig_args = format!("[{}] in one write", shown);
+                self.last_sig = sig_args.clone();
+                self.conns[c].as_mut().unwrap().send(&bytes);
+                let frames = match self.settle_frames() {
+                    Ok(f) => f,
+                    Err(e) => {
+                        let cls = if e.starts_with("server-exited") { "server-exited" } else if e.starts_with("garbage") { "garbage-bytes" } else { return Err(e) };
+                        let sig = format!("{}|{}|{}|act={}", self.spec.prop, ctx, sig_args, cls);
+                        return Ok(StepOut { ok: false, dev: Some((sig, json!({"commands": shown, "actual": e, "panic": crate::srv::LAST_PANIC.lock().unwrap().clone()}))), obs: cls.into() });
+                    }
+                };
+                // the model executes them one after the other
+                let mut own: Vec<Exp> = Vec::new();
+                let mut pushes: std::collections::BTreeMap<usize, Vec<R>> = std::collections::BTreeMap::new();
+                for args in cmds.iter() {
+                    let off = own.len().min(frames[c].len());
+                    let out = self.model.apply(c, args, &frames[c][off..]);
+                    own.extend(out.own);
+                    for (k, v) in out.pushes {
+                        pushes.entry(k).or_default().extend(v);
+                    }
+                }
+                let mut problems: Vec<String> = Vec::new();
+                if frames[c].len() != own.len() {
+                    problems.push(format!("own-frames={}-expected={}", frames[c].len(), own.len()));
+                }
+                for (i, e) in own.iter().enumerate() {
+                    if let Some(f) = frames[c].get(i) {
+                        if !e.matches(f) {
+                            problems.push(format!("reply#{}:exp={}|act={}", i + 1, e.class(), resp::class(f)));
+                        }
+                    }
+                }
+                for i in 0..frames.len() {
+                    if i == c {
+                        continue;
+                    }
+                    let want = pushes.get(&i).cloned().unwrap_or_default();
+                    if !Exp::AnyOrder(want.clone()).matches(&R::Arr(frames[i].clone())) {
+                        problems.push(format!("c{}-received={}-expected={}", i, frames[i].len(), want.len()));
+                    }
+                }
+                let obs = format!("{} {} -> {}", ctx, sig_args, frames[c].iter().map(resp::class).collect::<Vec<_>>().join(","));
+                if problems.is_empty() {
+                    Ok(StepOut { ok: true, dev: None, obs })
+                } else {
+                    let sig = format!("{}|{}|{}|{}", self.spec.prop, ctx, sig_args, problems.join(";"));
+                    let detail = json!({"commands": format!("c{}: {}", c, shown), "expected_own": own.iter().map(|e| e.describe()).collect::<Vec<_>>(),
+                        "received": frames.iter().enumerate().map(|(i, f)| (format!("c{}", i), f.iter().map(resp::show).collect::<Vec<_>>())).collect::<std::collections::BTreeMap<_, _>>()});
+                    Ok(StepOut { ok: false, dev: Some((sig, detail)), obs })
+                }
             }
             MAct::Cmd(c, args) => {
                 if self.conns[c].is_none() {
